@@ -358,13 +358,26 @@ func trimViolations(ctx *Ctx) {
 		}
 		return ctx.viol[a].Index < ctx.viol[b].Index
 	})
+	// Keep at most 64 per sub: the 24 lowest indices plus 40 spread evenly
+	// over the rest (later cases of a state machine carry longer histories,
+	// which is what reproduces when a tree has become history dependent).
 	var out []violation
-	cnt := map[string]int{}
-	for _, v := range ctx.viol {
-		if cnt[v.Sub] < 64 {
-			out = append(out, v)
-			cnt[v.Sub]++
+	for i := 0; i < len(ctx.viol); {
+		j := i
+		for j < len(ctx.viol) && ctx.viol[j].Sub == ctx.viol[i].Sub {
+			j++
 		}
+		grp := ctx.viol[i:j]
+		if len(grp) <= 64 {
+			out = append(out, grp...)
+		} else {
+			out = append(out, grp[:24]...)
+			rest := grp[24:]
+			for k := 0; k < 40; k++ {
+				out = append(out, rest[k*len(rest)/40])
+			}
+		}
+		i = j
 	}
 	ctx.viol = out
 }
